@@ -41,7 +41,19 @@ def defs():
             n = 2 if len(sens) < 3 else 3
             out.append(space.bind_def(n, k, c, order=i, sensors_shape=sens, tag=f"-s{'x'.join(map(str, sens))}"))
             i += 1
+    out.append(anticorrelated_def())
     return out
+
+
+def anticorrelated_def():
+    """a sensor whose predicted readings are NEGATIVELY correlated (r1 = x - y, r2 = y): S has negative off-diagonal entries"""
+    S, DT, add, sub, mul, C = space.S, space.DT, space.add, space.sub, space.mul, space.C
+    x, y, u = S("x"), S("y"), S("u")
+    model = [["y", add(mul(C(7, 8), y), mul(DT, u))], ["x", add(x, mul(DT, y))]]
+    # the two-reading sensor comes first in key order, so it is applied right after the prediction
+    sensors = [["gps", [["r1", add(mul(C(1, 2), x), mul(C(2), y))]]], ["alt", [["r2", y], ["r1", sub(x, y)]]]]
+    snoise = [["gps", [["r1", 0.5]]], ["alt", [["r1", 0.25], ["r2", 1.0]]]]
+    return space.mkdef("anticorr-s2x1", ["y", "x"], ["u"], [], model, [], [["u", 0.25]], sensors, snoise)
 
 
 def cases(tier, seed):
